@@ -134,6 +134,15 @@ Section RoundTrip.
     rewrite parse_model_roundtrip by assumption. reflexivity.
   Qed.
 
+  (* whatever follows the written text — nothing at all (the stream ends right after the last
+     token, no trailing separator) or further data — the object is read back and the rest is left *)
+  Lemma roundtrip_model_suffix_lemma : forall x dest rest, wf_model dbl x -> mS dest = mS x -> mA dest = mA x ->
+    read_model token read (write_model token show x ++ rest) dest = (x, ROk x rest).
+  Proof.
+    intros x dest rest Hwf HS HA. unfold read_model. rewrite HS, HA.
+    rewrite parse_model_roundtrip by assumption. reflexivity.
+  Qed.
+
   (* ---------------- MDP::Experience ---------------- *)
   Lemma roundtrip_experience_lemma : forall x dest, wf_experience dbl u64 x ->
     eS dest = eS x -> eA dest = eA x ->
